@@ -48,7 +48,7 @@ COMPONENTS_STUB = ["np.random.Generator.permutation -> SimGenerator where a sche
 EXPECTED_PROBES = ["partial_last_batch", "batch_larger_than_set", "grid_invert_branch",
                    "grid_truncated_to_n_val", "random_split", "n_val_rounds_to_zero", "reset_reseeded",
                    "workload_A", "workload_B", "workload_C", "ratio_out_of_range", "train_empty",
-                   "negative_control_differs", "val_split_in_loop"]
+                   "negative_control_differs", "val_split_in_loop", "reset_after_continue"]
 
 _ctx = {}
 
@@ -123,7 +123,11 @@ def gen(rng: Rng, tier, i):
             "seed": rng.randrange(10 ** 6), "b": rng.pick([5, 7, 10, 16, 35, 1, 36, 40]),
             "ratio": rng.pick([0.0, 0.2, 0.25, 0.5]), "mode": rng.pick(["grid", "random"]),
             "iters": rng.pick([2, 3, 4]), "opt": rng.pick(["adam", "sgd"]),
-            "variant": rng.pick(["two_instances", "reset_rerun", "both"])}
+            "variant": rng.pick(["two_instances", "reset_rerun", "both"]),
+            # call history on one instance: R = reconstruct(reset=True), C = continue (reset=False),
+            # N = first call on a fresh instance without reset
+            "seq": rng.pick([["R", "R"], ["R", "C", "R"], ["N", "R"], ["N", "C", "R"], ["R", "C", "C", "R"],
+                             ["R", "R", "C", "R"]])}
 
 
 # ------------------------------------------------------------------------------------------
@@ -401,14 +405,41 @@ def _run_C(plan, res, viol):
             viol("seeded_history_differs", f"two instances with the same seed: losses {L1.tolist()} "
                  f"vs {L2.tolist()}", "seeded_history_differs:two_instances")
     if plan["variant"] in ("reset_rerun", "both"):
-        L3, V3, S3 = run(p1, l1)
-        bump(res["probes"], "reset_reseeded")
-        if not same_seq(S1, S3):
-            viol("seeded_schedule_differs", "the same instance after reset saw a different batch "
-                 "sequence", "seeded_schedule_differs:reset")
-        elif not np.allclose(L1, L3, rtol=1e-6, atol=0) or not np.allclose(V1, V3, rtol=1e-6, atol=0):
-            viol("seeded_history_differs", f"same instance after reset: losses {L1.tolist()} vs "
-                 f"{L3.tolist()}", "seeded_history_differs:reset")
+        # a history of calls on ONE fresh instance; every run that starts from the initial state
+        # (first call without reset, or any call with reset=True) must reproduce run 1
+        p3, l3 = fresh(plan["seed"])
+        hist = []
+        for q, c in enumerate(plan.get("seq", ["R", "R"])):
+            del l3[:]
+            if c == "C":
+                p3.reconstruct(num_iters=1, batch_size=plan["b"])
+                hist.append("C")
+                continue
+            if c == "N" and q == 0:
+                p3.reconstruct(reset=False, **kw)
+            else:
+                p3.reconstruct(reset=True, **kw)
+                bump(res["probes"], "reset_reseeded")
+            hist.append(c)
+            L3 = np.asarray(p3.iter_losses, dtype=float).copy()
+            V3 = np.asarray(p3.val_iter_losses, dtype=float).copy()
+            S3 = [x.copy() for x in l3]
+            if c == "R" and "C" in hist[:-1]:
+                bump(res["probes"], "reset_after_continue")
+            if not same_seq(S1, S3):
+                viol("seeded_schedule_differs", f"call history {hist} on one instance: this run "
+                     "started from the initial state but saw a different batch sequence than the "
+                     "first run from the same seed",
+                     "seeded_schedule_differs:" + ("reset_after_continue" if "C" in hist else
+                                                   "reset" if c == "R" else "first_call"))
+                break
+            if len(L3) != len(L1) or not np.allclose(L1, L3, rtol=1e-6, atol=0) or not np.allclose(
+                    V1, V3, rtol=1e-6, atol=0):
+                viol("seeded_history_differs", f"call history {hist}: losses {L1.tolist()} vs "
+                     f"{L3.tolist()}", "seeded_history_differs:" + (
+                         "reset_after_continue" if "C" in hist else "reset" if c == "R" else
+                         "first_call"))
+                break
     # negative control: another seed must give another schedule (when a shuffle has freedom)
     if per_epoch >= 2 or (plan["mode"] == "random" and n_all > T):
         p4, l4 = fresh(plan["seed"] + 1)
@@ -486,7 +517,7 @@ def shrink(plan):
         simple = {"B": {"ratio": 0.0, "mode": "grid", "obj_type": "complex", "modes": 1, "slices": 1,
                         "scan": [4, 6], "loss": "l2_amplitude"},
                   "C": {"ratio": 0.0, "mode": "grid", "iters": 2, "opt": "sgd", "scan": [5, 7],
-                        "variant": "two_instances"}}[plan["w"]]
+                        "variant": "two_instances", "seq": ["R", "R"]}}[plan["w"]]
         for k, v in simple.items():
             if plan.get(k) != v:
                 p = copy.deepcopy(plan)
